@@ -457,7 +457,7 @@ def _c07(m, tier, seed, rundir, extra):
     procs = 4 if tier == 'quick' else 12
     tables = []
     for p in range(procs):
-        res = core.run_sharded('c07', ['--seed', seed, '--count', count] + (['--reverse', '1'] if p % 2 else []), SH, os.path.join(rundir, f'proc{p}'))
+        res = core.run_sharded('c07', ['--seed', seed, '--count', count] + (['--reverse', '1'] if p % 2 else []) + (['--trace-log', 1] if p % 3 == 1 else []), SH, os.path.join(rundir, f'proc{p}'))
         per_shard = []
         for rc, summ, err in res:
             if summ is None:
